@@ -833,6 +833,108 @@ fn structured_families(thorough: bool) -> Vec<(&'static str, Expr)> {
         out.push(("range-representation", Expr::Index(b(Expr::Tuple(vec![int(1), int(2)])), b(Expr::RangeTo(b(int(*a)), true)))));
     }
 
+    // ---- fresh-container ---------------------------------------------------------------
+    // every operation that yields a NEW list / map, followed by a mutation of the result or of the
+    // original and an observation of both (the reference semantics has value containers: the two
+    // must be independent)
+    for n in [0i64, 1, 3] {
+        let orig = Expr::List((0..n).map(|i| int(1 + i)).collect());
+        let mut makers: Vec<Expr> = vec![
+            Expr::Index(b(Expr::Var(0)), b(Expr::RangeFull)),
+            Expr::Index(b(Expr::Var(0)), b(Expr::RangeFrom(b(int(0))))),
+            Expr::Index(b(Expr::Var(0)), b(Expr::RangeFrom(b(int(-2))))),
+            Expr::Index(b(Expr::Var(0)), b(Expr::RangeTo(b(int(n)), false))),
+            Expr::Index(b(Expr::Var(0)), b(Expr::RangeTo(b(int(n + 4)), false))),
+            Expr::Index(b(Expr::Var(0)), b(Expr::RangeTo(b(int(n - 1)), true))),
+            Expr::Index(b(Expr::Var(0)), b(rng_e(0, n, false))),
+            Expr::Index(b(Expr::Var(0)), b(rng_e(0, n - 1, true))),
+            Expr::Index(b(Expr::Var(0)), b(rng_e(-3, n + 7, false))),
+            Expr::Index(b(Expr::Var(0)), b(rng_e(0, 9223372036854775800, true))),
+            Expr::Index(b(Expr::Var(0)), b(rng_e(1, n, false))),
+            Expr::Index(b(Expr::Var(0)), b(rng_e(0, n - 1, false))),
+            Expr::Arith(ArithOp::Add, b(Expr::Var(0)), b(Expr::List(vec![]))),
+            Expr::Arith(ArithOp::Add, b(Expr::List(vec![])), b(Expr::Var(0))),
+            Expr::Arith(ArithOp::Add, b(Expr::Var(0)), b(Expr::Index(b(Expr::Var(0)), b(rng_e(0, 0, false))))),
+            Expr::Index(b(Expr::Index(b(Expr::Var(0)), b(Expr::RangeFull))), b(Expr::RangeFull)),
+        ];
+        makers.push(Expr::If(b(Expr::Lit(Lit::Bool(true))), b(Expr::Index(b(Expr::Var(0)), b(Expr::RangeFull))), Some(b(Expr::List(vec![])))));
+        for mk in makers {
+            for who in [0u32, 1] {
+                for idx in [int(0), Expr::RangeFull] {
+                    out.push((
+                        "fresh-container",
+                        Expr::Block(vec![
+                            Expr::Assign(0, b(orig.clone())),
+                            Expr::Assign(1, b(mk.clone())),
+                            Expr::Emit(b(Expr::IndexAssign(who, b(idx.clone()), b(int(42))))),
+                            Expr::Emit(b(Expr::Var(0))),
+                            Expr::Emit(b(Expr::Var(1))),
+                            Expr::Cmp(b(Expr::Var(0)), vec![(CmpOp::Eq, Expr::Var(1))]),
+                        ]),
+                    ));
+                }
+            }
+        }
+        // maps: `m + {}` / `{} + m` are new maps
+        let morig = Expr::Map((0..n as usize).map(|i| (keys[i].to_string(), int(i as i64 + 1))).collect());
+        for mk in [
+            Expr::Arith(ArithOp::Add, b(Expr::Var(0)), b(Expr::Map(vec![]))),
+            Expr::Arith(ArithOp::Add, b(Expr::Map(vec![])), b(Expr::Var(0))),
+            Expr::Arith(ArithOp::Add, b(Expr::Var(0)), b(Expr::Var(0))),
+        ] {
+            for who in [0u32, 1] {
+                out.push((
+                    "fresh-container",
+                    Expr::Block(vec![
+                        Expr::Assign(0, b(morig.clone())),
+                        Expr::Assign(1, b(mk.clone())),
+                        Expr::Emit(b(Expr::IndexAssign(who, b(int(0)), b(Expr::Tuple(vec![lit_str("kx"), int(42)]))))),
+                        Expr::Emit(b(Expr::Var(0))),
+                        Expr::Var(1),
+                    ]),
+                ));
+            }
+        }
+    }
+
+    // ---- literal-identity --------------------------------------------------------------
+    // literals in ONE script that are == but not identical, or equal in text but different in
+    // kind: each must evaluate to the value written, in both orders (the constant pool is per script)
+    {
+        let f = |x: f64| Expr::Lit(Lit::Float(x));
+        let pairs: Vec<(Expr, Expr)> = vec![
+            (f(0.0), f(-0.0)),
+            (int(100000), f(100000.0)),
+            (int(4294967296), f(4294967296.0)),
+            (int(9007199254740993), f(9007199254740992.0)),
+            (int(-70000), f(-70000.0)),
+            (f(1.5), f(1.5)),
+            (f(2.0), int(2)),
+            (int(1000000007), lit_str("1000000007")),
+            (f(2.5), lit_str("2.5")),
+            (lit_str("emit"), lit_str("size")),
+            (lit_str("v0"), lit_str("v1")),
+            (lit_str("ka"), lit_str("null")),
+            (lit_str("true"), Expr::Lit(Lit::Bool(true))),
+        ];
+        for (x, y) in pairs {
+            for (a, c) in [(x.clone(), y.clone()), (y.clone(), x.clone())] {
+                let recip = |e: &Expr| Expr::Emit(b(Expr::Arith(ArithOp::Div, b(int(1)), b(e.clone()))));
+                let numeric = |e: &Expr| matches!(e, Expr::Lit(Lit::Int(_)) | Expr::Lit(Lit::Float(_)));
+                let mut stmts = vec![Expr::Assign(0, b(a.clone())), Expr::Emit(b(Expr::Var(0))), Expr::Assign(1, b(Expr::Emit(b(c.clone()))))];
+                if numeric(&a) && numeric(&c) {
+                    stmts.push(recip(&a));
+                    stmts.push(recip(&c));
+                    stmts.push(Expr::Emit(b(Expr::Arith(ArithOp::Add, b(a.clone()), b(c.clone())))));
+                }
+                stmts.push(Expr::Emit(b(Expr::Map(vec![("ka".into(), a.clone()), ("v0".into(), c.clone())]))));
+                stmts.push(Expr::Emit(b(Expr::Size(b(lit_str("size"))))));
+                stmts.push(Expr::Tuple(vec![Expr::Cmp(b(a.clone()), vec![(CmpOp::Eq, c.clone())]), Expr::Var(0), Expr::Var(1), a.clone(), c.clone()]));
+                out.push(("literal-identity", Expr::Block(stmts)));
+            }
+        }
+    }
+
     // ---- jump-in-literal -----------------------------------------------------------------
     // break / continue inside container literals and interpolations within loops
     for at in 0..=3i64 {
@@ -1184,6 +1286,8 @@ fn main() {
                                 "list-position: lists of 0..5 elements × number and range index assignment over the grid {-1,0,1,2,len-1,len,len+2}² (inclusive/exclusive, open ends)",
                                 "position-read: list / tuple / string / map / range indexing and slicing over the same grids",
                                 "range-representation: bounds around 0, ±2^31 and large i64 (both KRange representations), inclusive/exclusive, ascending/descending/empty/single: for (with and without break), size, indexing, slicing a list by the range, the range value itself",
+                                "fresh-container: every operation that yields a new list / map (slices with full / open / clamped / covering ranges, + with an empty operand, nested slices, through if) followed by a mutation of the result or of the original; both observed",
+                                "literal-identity: pairs of literals in one script that are == but not identical or equal in text but different in kind (0.0/-0.0, int/float of the same value, numbers/strings, strings naming identifiers), both orders, observed directly, through 1/x, +, map values and ==",
                                 "jump-in-literal: break / break value / continue inside list, tuple, map and interpolated-string literals within loops"]}),
         );
         let ctxs = [Context::Top, Context::Function];
